@@ -118,6 +118,36 @@ class Poly:
     def key(self):
         return frozenset(self.t.items())
 
+    def divide_exact(self, q):
+        """self / q if q divides self exactly (lexicographic leading-term division), else None"""
+        if not q.t:
+            return None
+        lq = max(q.t)
+        cq = q.t[lq]
+        lq_e = dict(Poly.unpack(lq))
+        rem = dict(self.t)
+        quo = {}
+        steps = 0
+        while rem:
+            steps += 1
+            if steps > 200000:
+                return None
+            lm = max(rem)
+            for i, e in lq_e.items():
+                if ((lm >> (BITS * i)) & MASK) < e:
+                    return None
+            m = lm - lq
+            c = rem[lm] / cq
+            quo[m] = quo.get(m, 0) + c
+            for mq, c2 in q.t.items():
+                k = m + mq
+                v = rem.get(k, 0) - c * c2
+                if v == 0:
+                    rem.pop(k, None)
+                else:
+                    rem[k] = v
+        return Poly({m: c for m, c in quo.items() if c != 0})
+
     def nterms(self):
         return len(self.t)
 
@@ -168,6 +198,7 @@ class Normalizer:
         self._poly = {}
         self._atomgen = {}
         self.reductions = {}  # gen idx -> (q, Poly) meaning g^q = Poly
+        self.aliases = {}  # gen idx -> (other gen, power): g = other^power (perfect-power roots)
         self._no_reduce = False
 
     # ------------------------------------------------------------------ gens
@@ -201,6 +232,14 @@ class Normalizer:
                 num, den = self.ratnorm(n.args[0])
                 if not den:
                     self.reductions[i] = (n.args[1], self.poly(num))
+                else:
+                    try:
+                        quo = self.poly(num).divide_exact(self.poly(self.den_node(den)))
+                    except MemoryError:
+                        quo = None
+                    if quo is not None:
+                        self.reductions[i] = (n.args[1], quo)
+                self._link_perfect_powers(i, n.args[1])
             elif op == "sin":
                 # sin^2 -> 1 - cos^2 of the same argument
                 cosn = Node("cos", n.args)
@@ -209,6 +248,27 @@ class Normalizer:
         self._atomgen[n.id] = i
         return i
 
+    def _link_perfect_powers(self, i, q):
+        """root_q(B) and root_q(B^2) are related: the coarser atom is the square of the finer one"""
+        red = self.reductions.get(i)
+        if red is None or red[0] != q:
+            return
+        B = red[1]
+        for h, (qh, Bh) in list(self.reductions.items()):
+            if h == i or qh != q or self.gen_info[h].get("kind") != "atom" or self.gen_info[h]["node"].op != "root":
+                continue
+            try:
+                if (Bh * Bh).key() == B.key():
+                    # new = h^2
+                    self.reductions[i] = (1, Poly.gen(h, 2))
+                    self.aliases[i] = (h, 2)
+                    return
+                if (B * B).key() == Bh.key():
+                    self.reductions[h] = (1, Poly.gen(i, 2))
+                    self.aliases[h] = (i, 2)
+            except MemoryError:
+                continue
+
     def rat_key(self, n: Node):
         """canonical key of a (rational) expression"""
         num, den = self.ratnorm(n)
@@ -216,6 +276,9 @@ class Normalizer:
         if not den:
             return ("p", P.key())
         Q = self.poly(self.den_node(den))
+        quo = P.divide_exact(Q)
+        if quo is not None:
+            return ("p", quo.key())
         # normalise scale by the coefficient of the largest monomial of Q
         lead = Q.t[max(Q.t)]
         return ("r", P.scale(1 / lead).key(), Q.scale(1 / lead).key())
@@ -340,7 +403,11 @@ class Normalizer:
             if len(p.t) > max_terms:
                 raise MemoryError("polynomial expansion exceeds %d terms" % max_terms)
             P[m.id] = p
-        return P[root.id]
+        res = P[root.id]
+        if self.reductions and not self._no_reduce:
+            res = self.reduce(res)
+            P[root.id] = res
+        return res
 
     def _topo_poly(self, root):
         # like topo but does not descend into atoms
